@@ -3,7 +3,7 @@
 This module imports neither torch nor cvxpy; workers import them after the fork.
 Exit codes: 0 held / only known findings; 1 VIOLATION; 2 HARNESS-ERROR (never reported as 0).
 """
-import concurrent.futures as cf
+import concurrent.futures as cf  # noqa: F401 (used by selftest)
 import faulthandler
 import importlib
 import json
@@ -23,6 +23,14 @@ PROPS = {
     "C01": "c01", "C02": "c02", "C05": "c05", "C06": "c06", "C07": "c07", "C08": "c08", "C11": "c11",
     "C12": "c12", "C13": "c13", "C16": "c16", "C18": "c18", "C19": "c19", "C20": "c20",
 }
+
+
+JOBS = {}
+
+
+def _job(f):
+    JOBS[f.__name__] = f
+    return f
 
 
 def load_prop(pid):
@@ -95,6 +103,7 @@ def execute_scenario(mod, scn):
     return res
 
 
+@_job
 def _batch(args):
     pid, root, indices, tier, sample_first, per_run_cap = args
     faulthandler.enable()
@@ -111,16 +120,11 @@ def _batch(args):
     return results
 
 
-def _minimize_job(args):
-    pid, scn, clause, budget = args
-    mod = load_prop(pid)
-    return minimize(mod, scn, clause, budget)
-
-
-def minimize(mod, scn, clause, budget=300):
+def minimize(mod, scn, clause, budget=300, prelude=None):
     """Delta debugging over the scenario's own structure while the same clause still fails."""
     import copy
 
+    pid = scn.get("prop")
     tried = 0
     current = scn
     improved = True
@@ -130,8 +134,12 @@ def minimize(mod, scn, clause, budget=300):
             if tried >= budget:
                 break
             tried += 1
+            cand["prop"] = pid
             try:
-                res = execute_scenario(mod, copy.deepcopy(cand))
+                if prelude:
+                    res = _forked(_exec_with_prelude, pid, copy.deepcopy(cand), prelude)
+                else:
+                    res = execute_scenario(mod, copy.deepcopy(cand))
             except Exception:  # noqa: BLE001 - ill-formed candidate
                 continue
             if any(v.get("clause") == clause for v in res["violations"]):
@@ -141,11 +149,112 @@ def minimize(mod, scn, clause, budget=300):
     return current, tried
 
 
+def _run_prelude(mod, prelude):
+    import copy
+
+    for ps in prelude:
+        try:
+            execute_scenario(mod, copy.deepcopy(ps))
+        except Exception:  # noqa: BLE001 - a prelude run only matters for the state it leaves
+            pass
+
+
+@_job
+def _minimize_job(args):
+    pid, scn, clause, budget, prelude = args
+    mod = load_prop(pid)
+    if not prelude:
+        return minimize(mod, scn, clause, budget)
+    # with a prelude every candidate needs a pristine process: fork one per candidate
+    return minimize(mod, scn, clause, min(budget, 60), prelude=prelude)
+
+
+@_job
+def _scenarios_job(args):
+    pid, root, indices, tier = args
+    out = []
+    for i in indices:
+        r = run_one(pid, root, i, tier, want_scenario=True)
+        if "scenario" in r:
+            out.append(r["scenario"])
+    return out
+
+
+def _forked(fn, *a):
+    """Runs fn(*a) in a forked child of this (already initialised) process and returns its result."""
+    ctx = multiprocessing.get_context("fork")
+    rd, wr = ctx.Pipe(duplex=False)
+    pid = os.fork()
+    if pid == 0:
+        try:
+            rd.close()
+            wr.send(("ok", fn(*a)))
+        except BaseException:  # noqa: BLE001
+            try:
+                wr.send(("err", traceback.format_exc()))
+            except Exception:  # noqa: BLE001
+                pass
+        finally:
+            os._exit(0)
+    wr.close()
+    try:
+        kind, payload = rd.recv()
+    except EOFError:
+        kind, payload = "err", "child died"
+    os.waitpid(pid, 0)
+    if kind != "ok":
+        raise RuntimeError(payload)
+    return payload
+
+
+def _exec_with_prelude(pid, scn, prelude):
+    mod = load_prop(pid)
+    _run_prelude(mod, prelude)
+    return execute_scenario(mod, scn)
+
+
+@_job
+def _minimize_prelude_job(args):
+    """ddmin over the list of prelude scenarios (each candidate in a pristine forked process)."""
+    pid, scn, clause, prelude = args
+    tried = 0
+
+    def fails(pl):
+        nonlocal tried
+        tried += 1
+        try:
+            res = _forked(_exec_with_prelude, pid, scn, pl)
+        except Exception:  # noqa: BLE001
+            return False
+        return any(v.get("clause") == clause for v in res["violations"])
+
+    cur = list(prelude)
+    n = 2
+    while len(cur) >= 1 and tried < 80:
+        size = max(1, len(cur) // n)
+        chunks = [cur[i : i + size] for i in range(0, len(cur), size)]
+        reduced = False
+        for i in range(len(chunks)):
+            cand = [x for j, c in enumerate(chunks) if j != i for x in c]
+            if fails(cand):
+                cur = cand
+                n = max(n - 1, 2)
+                reduced = True
+                break
+        if not reduced:
+            if size == 1:
+                break
+            n = min(len(cur), n * 2)
+    return cur, tried
+
+
+@_job
 def _meta_job(pid):
     mod = load_prop(pid)
     return {k: getattr(mod, k) for k in ("LEVEL", "BUDGET", "RULE", "REAL", "STUBS", "ASSUMPTIONS")}
 
 
+@_job
 def _extra_job(args):
     pid, agg_stats, sets, tier = args
     mod = load_prop(pid)
@@ -154,9 +263,11 @@ def _extra_job(args):
     return {}
 
 
+@_job
 def _replay_job(args):
-    pid, scn = args
+    pid, scn, prelude = args
     mod = load_prop(pid)
+    _run_prelude(mod, prelude)
     return execute_scenario(mod, scn)
 
 
@@ -181,45 +292,156 @@ def match_known(pid, violation, known):
     return None
 
 
+class Supervisor:
+    """A child of the (torch-free) orchestrator that imports torch/torchjd/cvxpy once and then forks one
+    short-lived process per job. Every job therefore starts from the same pristine post-import state: a
+    batch of runs is a pure function of (seed, its indices), whatever ran before on the machine -- module
+    level caches or other process-global state mutated by the code under test cannot leak between
+    batches, and a violation that needs such state replays with the runs of its own batch as prelude."""
+
+    def __init__(self):
+        self.ctx = multiprocessing.get_context("fork")
+        self.parent, child = self.ctx.Pipe(duplex=True)
+        self.proc = self.ctx.Process(target=_supervisor_main, args=(child, repo_path()), daemon=False)
+        self.proc.start()
+        child.close()
+        msg = self.parent.recv()
+        if msg[0] != "ready":
+            raise RuntimeError(f"supervisor failed to start: {msg}")
+
+    def run_jobs(self, fn_name, args_list, workers, cap):
+        """Returns (results by job index, errors list, timed_out)."""
+        self.parent.send(("jobs", fn_name, args_list, workers, cap))
+        results, errors, timed_out = {}, [], False
+        while True:
+            if not self.parent.poll(cap + 120):
+                timed_out = True
+                break
+            msg = self.parent.recv()
+            if msg[0] == "result":
+                results[msg[1]] = msg[2]
+            elif msg[0] == "error":
+                errors.append(msg[1])
+            elif msg[0] == "timeout":
+                timed_out = True
+            elif msg[0] == "done":
+                break
+        return results, errors, timed_out
+
+    def call(self, fn_name, arg, cap=600):
+        res, errors, timed_out = self.run_jobs(fn_name, [arg], 1, cap)
+        if timed_out or errors or 0 not in res:
+            raise RuntimeError(f"job {fn_name} failed: timeout={timed_out} errors={errors[:1]}")
+        return res[0]
+
+    def close(self):
+        try:
+            self.parent.send(("quit",))
+        except Exception:  # noqa: BLE001
+            pass
+        self.proc.join(timeout=10)
+        if self.proc.is_alive():
+            self.proc.terminate()
+
+
+def _supervisor_main(conn, repo):
+    import multiprocessing.connection as mpc
+
+    try:
+        _worker_init(repo)
+        import cvxpy  # noqa: F401
+        import qpsolvers  # noqa: F401
+    except Exception:  # noqa: BLE001
+        conn.send(("failed", traceback.format_exc()))
+        return
+    conn.send(("ready",))
+    ctx = multiprocessing.get_context("fork")
+    while True:
+        try:
+            msg = conn.recv()
+        except EOFError:
+            return
+        if msg[0] == "quit":
+            return
+        _, fn_name, args_list, workers, cap = msg
+        pending = list(enumerate(args_list))
+        running = {}
+        deadline = time.time() + cap
+        timed_out = False
+        while pending or running:
+            while pending and len(running) < workers:
+                ji, arg = pending.pop(0)
+                rd, wr = ctx.Pipe(duplex=False)
+                p = ctx.Process(target=_job_child, args=(wr, fn_name, arg))
+                p.start()
+                wr.close()
+                running[rd] = (p, ji)
+            ready = mpc.wait(list(running.keys()), timeout=1.0)
+            for rd in ready:
+                p, ji = running.pop(rd)
+                try:
+                    kind, payload = rd.recv()
+                    if kind == "ok":
+                        conn.send(("result", ji, payload))
+                    else:
+                        conn.send(("error", f"job {ji}: {payload}"))
+                except EOFError:
+                    conn.send(("error", f"job {ji}: worker process died (exit code {p.exitcode})"))
+                rd.close()
+                p.join()
+            if time.time() > deadline:
+                timed_out = True
+                for rd, (p, ji) in running.items():
+                    p.terminate()
+                for rd, (p, ji) in running.items():
+                    p.join()
+                running.clear()
+                pending.clear()
+                conn.send(("timeout",))
+        conn.send(("done",))
+
+
+def _job_child(wr, fn_name, arg):
+    try:
+        res = JOBS[fn_name](arg)
+        wr.send(("ok", res))
+    except BaseException:  # noqa: BLE001
+        try:
+            wr.send(("err", traceback.format_exc()))
+        except Exception:  # noqa: BLE001
+            pass
+    finally:
+        wr.close()
+        os._exit(0)
+
+
 def check(pid, tier, seed=None, workers=None, n_runs=None, time_cap=None, write_evidence=True, quiet=False):
     t0 = time.time()
     seed = DEFAULT_SEED if seed is None else int(seed)
     os.environ["OMP_NUM_THREADS"] = "1"
-    ctx = multiprocessing.get_context("fork")
-    with cf.ProcessPoolExecutor(max_workers=1, mp_context=ctx, initializer=_worker_init, initargs=(repo_path(),)) as ex:
-        meta = ex.submit(_meta_job, pid).result(timeout=300)
+    sup = Supervisor()
+    try:
+        return _check(sup, pid, tier, seed, workers, n_runs, time_cap, write_evidence, quiet, t0)
+    finally:
+        sup.close()
+
+
+def _check(sup, pid, tier, seed, workers, n_runs, time_cap, write_evidence, quiet, t0):
+    meta = sup.call("_meta_job", pid, cap=300)
     budget = meta["BUDGET"][tier]
     n = int(n_runs if n_runs is not None else budget["runs"])
     cap = float(time_cap if time_cap is not None else budget.get("wall", 600))
     workers = int(workers or os.environ.get("SIMJD_WORKERS", 0) or min(16, os.cpu_count() or 1))
     root = derive(seed, pid, tier)
     print(f"simjd check property={pid} tier={tier} seed={seed} root={root} runs={n} workers={workers}", flush=True)
-    chunk = max(1, min(int(budget.get("chunk", 20)), (n + workers - 1) // workers))
+    chunk = max(1, int(budget.get("chunk", 20)))  # independent of the worker count: batches are part of the schedule
     batches = [list(range(s, min(n, s + chunk))) for s in range(0, n, chunk)]
     sample_first = 3
     per_run_cap = int(budget.get("per_run_cap", 120))
+    res_by_job, harness_errors, timed_out = sup.run_jobs("_batch", [(pid, root, b, tier, sample_first, per_run_cap) for b in batches], workers, cap)
     results = []
-    harness_errors = []
-    timed_out = False
-    with cf.ProcessPoolExecutor(max_workers=workers, mp_context=ctx, initializer=_worker_init, initargs=(repo_path(),)) as ex:
-        futs = [ex.submit(_batch, (pid, root, b, tier, sample_first, per_run_cap)) for b in batches]
-        try:
-            for fut in cf.as_completed(futs, timeout=cap):
-                try:
-                    results.extend(fut.result())
-                except Exception as e:  # noqa: BLE001 - crashed worker
-                    harness_errors.append(f"worker crashed: {e!r}")
-                    break
-        except cf.TimeoutError:
-            timed_out = True
-        if timed_out or harness_errors:
-            for f in futs:
-                f.cancel()
-            for p in list(getattr(ex, "_processes", {}).values()):
-                try:
-                    p.terminate()
-                except Exception:  # noqa: BLE001
-                    pass
+    for ji in sorted(res_by_job):
+        results.extend(res_by_job[ji])
     results.sort(key=lambda r: r["index"])
     for r in results:
         if "harness_error" in r:
@@ -249,32 +471,53 @@ def check(pid, tier, seed=None, workers=None, n_runs=None, time_cap=None, write_
     if new_violation is not None:
         r, v = new_violation
         scn = r["scenario"]
+        clause = v["clause"]
         tried = 0
+        prelude = []
+        reproducible = True
         try:
-            with cf.ProcessPoolExecutor(max_workers=1, mp_context=ctx, initializer=_worker_init, initargs=(repo_path(),)) as ex:
-                scn_min, tried = ex.submit(_minimize_job, (pid, scn, v["clause"], int(budget.get("shrink", 300)))).result(timeout=600)
-                res_min = ex.submit(_replay_job, (pid, scn_min)).result(timeout=300)
+            alone = sup.call("_replay_job", (pid, scn, []), cap=600)
+            if any(x.get("clause") == clause for x in alone["violations"]):
+                scn_min, tried = sup.call("_minimize_job", (pid, scn, clause, int(budget.get("shrink", 300)), []), cap=900)
+            else:
+                # the violation needs process state left by earlier runs of its batch: replay them as prelude
+                batch = [b for b in batches if r["index"] in b][0]
+                before = batch[: batch.index(r["index"])]
+                prelude = sup.call("_scenarios_job", (pid, root, before, tier), cap=600)
+                withp = sup.call("_replay_job", (pid, scn, prelude), cap=900)
+                if any(x.get("clause") == clause for x in withp["violations"]):
+                    prelude, t1 = sup.call("_minimize_prelude_job", (pid, scn, clause, prelude), cap=900)
+                    scn_min, t2 = sup.call("_minimize_job", (pid, scn, clause, int(budget.get("shrink", 300)) // 2, prelude), cap=900)
+                    tried = t1 + t2
+                    print(f"note: the violation depends on process-global state left by {len(prelude)} earlier run(s) of the same batch; they are kept in the replay file as prelude")
+                else:
+                    reproducible = False
+                    scn_min = scn
+            res_min = sup.call("_replay_job", (pid, scn_min, prelude), cap=600)
         except Exception as e:  # noqa: BLE001
             print(f"note: minimisation failed ({e!r}); reporting the unminimised scenario")
             scn_min, res_min = scn, {"violations": r["violations"], "digest": r["digest"]}
-        vmin = [x for x in res_min["violations"] if x.get("clause") == v["clause"]]
+        vmin = [x for x in res_min["violations"] if x.get("clause") == clause]
         vmin = vmin[0] if vmin else v
         os.makedirs(os.path.join(VERIF, "replays"), exist_ok=True)
         replay_path = os.path.join(VERIF, "replays", f"{pid}_{tier}_{seed}_{r['index']}.json")
         with open(replay_path, "w") as f:
             json.dump(
                 {
-                    "property": pid, "clause": v["clause"], "tier": tier, "verif_seed": seed,
+                    "property": pid, "clause": clause, "tier": tier, "verif_seed": seed,
                     "run_index": r["index"], "run_seed": r["seed"], "violation": vmin,
                     "digest": res_min["digest"], "minimisation_candidates_tried": tried,
-                    "scenario": scn_min, "original_scenario": scn,
+                    "prelude": prelude, "scenario": scn_min, "original_scenario": scn,
                 },
                 f, indent=1, sort_keys=True, default=str,
             )
-        min_info = {"tried": tried}
-        print(f"violation: clause={v['clause']} run_index={r['index']} run_seed={r['seed']} details={json.dumps(vmin.get('details', {}), default=str)[:600]}")
-        print(f"VIOLATION property={pid} replay={replay_path}")
-        exit_code = 1
+        min_info = {"tried": tried, "prelude_runs": len(prelude)}
+        print(f"violation: clause={clause} run_index={r['index']} run_seed={r['seed']} details={json.dumps(vmin.get('details', {}), default=str)[:600]}")
+        if reproducible:
+            print(f"VIOLATION property={pid} replay={replay_path}")
+            exit_code = 1
+        else:
+            harness_errors.append(f"violation of clause {clause} in run {r['index']} did not reproduce in a fresh process, neither alone nor after the earlier runs of its batch (scenario kept in {replay_path})")
 
     if harness_errors or timed_out:
         for h in harness_errors[:5]:
@@ -332,8 +575,7 @@ def check(pid, tier, seed=None, workers=None, n_runs=None, time_cap=None, write_
         "violations": len([r for r in viol_runs if any(match_known(pid, v, known) is None for v in r["violations"])]),
     }
     try:
-        with cf.ProcessPoolExecutor(max_workers=1, mp_context=ctx, initializer=_worker_init, initargs=(repo_path(),)) as ex:
-            evid["coverage"].update(ex.submit(_extra_job, (pid, agg_stats, sets, tier)).result(timeout=300))
+        evid["coverage"].update(sup.call("_extra_job", (pid, agg_stats, {k: sorted(v) for k, v in sets.items()}, tier), cap=300))
     except Exception as e:  # noqa: BLE001
         print(f"HARNESS-ERROR evidence_extra failed: {e!r}")
         exit_code = exit_code or 2
@@ -375,11 +617,14 @@ def replay(path):
     with open(path) as f:
         rp = json.load(f)
     pid = rp["property"]
-    ctx = multiprocessing.get_context("fork")
-    with cf.ProcessPoolExecutor(max_workers=1, mp_context=ctx, initializer=_worker_init, initargs=(repo_path(),)) as ex:
-        res = ex.submit(_replay_job, (pid, rp["scenario"])).result(timeout=600)
+    os.environ["OMP_NUM_THREADS"] = "1"
+    sup = Supervisor()
+    try:
+        res = sup.call("_replay_job", (pid, rp["scenario"], rp.get("prelude", [])), cap=900)
+    finally:
+        sup.close()
     same = [v for v in res["violations"] if v.get("clause") == rp["clause"]]
-    print(f"replay property={pid} clause={rp['clause']} digest={res['digest']} recorded_digest={rp.get('digest')}")
+    print(f"replay property={pid} clause={rp['clause']} prelude_runs={len(rp.get('prelude', []))} digest={res['digest']} recorded_digest={rp.get('digest')}")
     if same:
         print(f"violation: {json.dumps(same[0], default=str)[:800]}")
         print(f"VIOLATION property={pid} replay={path}")
